@@ -52,7 +52,12 @@ class SubHarness(Harness):
                     if H.gate is not None:
                         await H.gate(("source", rs.rid, i))
                     rs.yielded += 1
-                    yield rs.mat.obj(rs.tree.node(nid))
+                    if nid == "EMPTY":
+                        yield {}
+                    elif nid == "NONE":
+                        yield None
+                    else:
+                        yield rs.mat.obj(rs.tree.node(nid))
                 if H.gate is not None:
                     await H.gate(("source-end", rs.rid))
             return source
@@ -80,13 +85,21 @@ def build_request(c, schema, plan, doc_opts=None):
     n = c.weighted([(1, 0), (2, 1), (2, 2), (3, 3), (2, 4)])
     events, faults = [], []
     for i in range(n):
-        node = tree.new_node(root)
-        events.append(node["_nid"])
+        kind = c.weighted([(8, "node"), (1, "EMPTY"), (1, "NONE")])
+        events.append(tree.new_node(root)["_nid"] if kind == "node" else kind)
     spec["tree"] = tree.store
     spec["events"] = events
     spec["faults"] = []
+    spec["decoy"] = None
+    if c.maybe(40):
+        # an initial_value that must NOT be what the events are executed against
+        decoy = tree.new_node(root)
+        Executor(schema, spec["doc"], RefProvider(tree)).execute(spec["op"], spec["variables"], root_value=decoy)
+        spec["decoy"] = decoy["_nid"]
     # draw the data of every event through a reference run, then maybe plant failures
     for i, nid in enumerate(events):
+        if not isinstance(nid, int):
+            continue
         ex = Executor(schema, spec["doc"], RefProvider(tree))
         ex.execute(spec["op"], spec["variables"], root_value=tree.node(nid))
         if c.maybe(35):
@@ -126,14 +139,18 @@ def expectations(spec):
         return ("source_error", str(e))
     for nid in spec["events"]:
         ex = Executor(schema, spec["doc"], RefProvider(tree))
-        data = ex.execute(spec["op"], spec["variables"], root_value=tree.node(nid))
+        # a falsy payload ({} or None) is still the root value of its event: every root field resolves to null
+        data = ex.execute(spec["op"], spec["variables"], root_value=tree.node(nid) if isinstance(nid, int) else {})
         out.append((data, ex.final_errors(), ex))
     return ("ok", out, (node["name"], src_args))
 
 
 async def consume_plain(h, spec, rs, text):
     out = []
-    async for resp in h.engine.subscribe(text, operation_name=spec["op"], context=rs.ctx, variables=copy.deepcopy(spec["variables"])):
+    kw = {}
+    if spec.get("decoy") is not None:
+        kw["initial_value"] = rs.mat.obj(rs.tree.node(spec["decoy"]))
+    async for resp in h.engine.subscribe(text, operation_name=spec["op"], context=rs.ctx, variables=copy.deepcopy(spec["variables"]), **kw):
         out.append(resp)
     return out
 
@@ -256,7 +273,7 @@ def case(c, stats):
             outcome = run_pattern(c, h, schema, spec, pattern, script)
         prev = spec if not spec.get("invalid") else prev
         stats.case({"d": spec["doc"], "v": spec["variables"], "e": spec["events"], "f": spec["faults"], "p": pattern, "s": schema["types"]}, is_nontrivial(spec, pattern),
-                   ["pattern:" + pattern, "kind:" + kind, "events:%d" % len(spec["events"]), "outcome:" + str(outcome), "faults:%d" % len(spec["faults"])],
+                   ["pattern:" + pattern, "kind:" + kind, "events:%d" % len(spec["events"]), "falsy_event:%s" % any(not isinstance(e, int) for e in spec["events"]), "decoy_initial_value:%s" % (spec.get("decoy") is not None), "outcome:" + str(outcome), "faults:%d" % len(spec["faults"])],
                    {"query": print_document(spec["doc"]).text, "variables": spec["variables"], "events": len(spec["events"]), "faults": spec["faults"], "pattern": pattern})
 
 
